@@ -162,7 +162,8 @@ def run(ctx):
                     for missing in miss_opts:
                         jobs.append((ctx.repo, D, isig, osig, bias, padding, stride, rd, ld, flags, missing, False))
         # fast path (public, dead while fast_mode is forced off): equal channels, no missing filter
-        for isig, osig in (((((0, 0), 2), ((1, 0), 2)), (((0, 0), 2), ((1, 0), 2))), ((((1, 0), 1),), (((0, 0), 1), ((1, 0), 1), ((2, 0), 1)))):
+        # (in and out channel counts differ, so an in_c / out_c mix-up changes a shape or the result)
+        for isig, osig in (((((0, 0), 2), ((1, 0), 2)), (((0, 0), 3), ((1, 0), 3))), ((((1, 0), 1),), (((0, 0), 2), ((1, 0), 2), ((2, 0), 2))), ((((0, 1), 3), ((1, 1), 3)), (((0, 0), 2), ((1, 0), 2)))):
             if D == 3 and not th:
                 continue
             jobs.append((ctx.repo, D, isig, osig, False, "TORUS", 1, 1, None, (True,) * D, (), True))
